@@ -47,6 +47,9 @@ var pks = []string{"p", "q", "p/q"}
 // and above the last one (slash order: 0 < a < b < c < a/a < a/b < a/c < b/a).
 var probes = []string{"", "0", "a", "b", "c", "a/a", "a/b", "a/c", "b/a"}
 
+var thoroughTier bool
+var invertedQuick = map[[2]string]bool{{"b", "a"}: true, {"a/b", "a"}: true, {"c", ""}: true}
+
 var cmpTypes = []proto.KeyComparisonType{proto.KeyComparisonType_EQUAL, proto.KeyComparisonType_FLOOR,
 	proto.KeyComparisonType_CEILING, proto.KeyComparisonType_LOWER, proto.KeyComparisonType_HIGHER}
 
@@ -145,7 +148,7 @@ func configs(tier string) []config {
 	}
 	return []config{
 		{"quick/notifications-on/reduced-sets", true, 3, buildOps(reducedSets(), nil)},
-		{"quick/notifications-off/reduced-sets", false, 3, buildOps(reducedSets(), nil)},
+		{"quick/notifications-off/7-sets", false, 3, buildOps([][]int{{}, {0}, {1}, {2}, {3}, {5}, {0, 3}}, nil)},
 		{"quick/sessions/small-sets", true, 4, buildOps([][]int{{}, {0}, {4}, {2, 3}}, [][]int{{3}, {0, 5}})},
 	}
 }
@@ -686,6 +689,9 @@ func (in *inst) checkQueries() {
 		// ---- list and range scan over every (start,end) pair
 		for _, st := range probes {
 			for _, en := range probes {
+				if !thoroughTier && slashCmp(st, en) > 0 && !invertedQuick[[2]string{st, en}] {
+					continue // quick tier: only three of the inverted (start > end) ranges
+				}
 				var want []idxEntry
 				for _, e := range ref {
 					if inRange(e.sk, st, en) {
@@ -914,13 +920,15 @@ func main() {
 	scratch = ev.Scratch("c15")
 	defer os.RemoveAll(scratch)
 	if *replay != "" {
+		thoroughTier = true
 		code := doReplay(*replay)
 		_ = os.RemoveAll(scratch)
 		os.Exit(code)
 	}
 	run := ev.NewRun("C15", "model_checking")
 	cfgs := configs(run.Tier)
-	budget, perConfig := 55*time.Second, 55*time.Second
+	thoroughTier = run.Tier == "thorough"
+	budget, perConfig := 55*time.Second, 25*time.Second
 	if run.Tier == "thorough" {
 		budget, perConfig = 18*time.Minute, 6*time.Minute
 	}
